@@ -90,28 +90,31 @@ def fromPhylipTril (text : Text) : PRes (Mat L) :=
       | .err k => .err k
       | .panic => .panic
 
-/-- the double loop of `from_phylip_strict` that fills the matrix through by-name `get`/`set` -/
-def fillStrict (names : List String) (rows : List (List L)) (m : Mat L) : PRes (Mat L) :=
-  let pairs := (names.zip rows).flatMap (fun (n1, row) => (names.zip row).map (fun (n2, d) => (n1, n2, d)))
-  let step (st : PRes (Mat L × List (String × String))) (p : String × String × L) : PRes (Mat L × List (String × String)) :=
-    match st with
-    | .ok (m, seen) =>
-      let (n1, n2, d) := p
-      if seen.contains (n2, n1) then
-        match MXS.get cd.zero m n1 n2 with
-        | .ok known => if cd.numEq known d then .ok (m, seen) else .err "NonSymmetric"
-        | .err k => .err k
-        | .panic => .panic
-      else
-        match MXS.set cd.isZero m n1 n2 d with
-        | (m', .ok _) => .ok (m', seen ++ [(n1, n2)])
-        | (_, .err k) => .err k
-        | (_, .panic) => .panic
-    | r => r
-  match pairs.foldl step (.ok (m, [])) with
-  | .ok (m, _) => .ok m
-  | .err k => .err k
-  | .panic => .panic
+/-- one cell of the double loop of `from_phylip_strict` (repaired: cells are addressed by POSITION, so repeated
+    row labels are harmless): the diagonal is skipped (it was checked by the row loop), an entry above the
+    diagonal — or any entry of the triangular layout — is stored, an entry below the diagonal of a square
+    matrix is compared with the stored mirror entry -/
+def fillCell (square : Bool) (st : PRes (Mat L)) (p : Nat × Nat × L) : PRes (Mat L) :=
+  match st with
+  | .ok m =>
+    if p.1 = p.2.1 then .ok m else
+    match MXS.cellOf m p.1 p.2.1 with
+    | none => .err "IndexError"
+    | some k =>
+      if k < m.v.size then
+        if square && decide (p.2.1 < p.1) then
+          if cd.numEq (m.v.getD k default) p.2.2 then .ok m else .err "NonSymmetric"
+        else .ok { m with v := m.v.setIfInBounds k p.2.2 }
+      else .panic
+  | r => r
+
+/-- the cells of the parsed rows in row-major order, each with its position -/
+def cellsOf (rows : List (List L)) : List (Nat × Nat × L) :=
+  rows.zipIdx.flatMap (fun ri => ri.1.zipIdx.map (fun dj => (ri.2, dj.2, dj.1)))
+
+/-- the double loop of `from_phylip_strict` -/
+def fillStrict (square : Bool) (rows : List (List L)) (m : Mat L) : PRes (Mat L) :=
+  (cellsOf rows).foldl (fillCell cd square) (.ok m)
 
 /-- row loop of `from_phylip_strict` -/
 def strictGo (size : Nat) (square : Bool) : List Text → Nat → List String → List (List L) → PRes (List String × List (List L))
@@ -137,7 +140,7 @@ def fromPhylipStrict (text : Text) (square : Bool) : PRes (Mat L) :=
       match strictGo cd size square rest 0 [] [] with
       | .ok (names, rows) =>
         if names.length ≠ size then .err "SizeAndRowsMismatch"
-        else fillStrict cd names rows { taxa := names, v := Array.replicate (T2 size) cd.zero }
+        else fillStrict cd square rows { taxa := names, v := Array.replicate (T2 size) cd.zero }
       | .err k => .err k
       | .panic => .panic
 
